@@ -471,22 +471,15 @@ def {}():
       pred[ yy ].add( xx )
       succ[ xx ].add( yy )
 
-      if xx in equiv: # xx is in a equivalence class
-        for zz in equiv[xx]:
-          if zz in method_is_top_level_callee:
-            top._dag.top_level_callee_constraints.add( (zz, yy) )
-      else:
-        if xx in method_is_top_level_callee:
-          top._dag.top_level_callee_constraints.add( (xx, yy) )
-
-      if yy in equiv: # yy is in a equivalence class
-        for zz in equiv[yy]:
-          if zz in method_is_top_level_callee:
-            top._dag.top_level_callee_constraints.add( (xx, zz) )
-
-      else:
-        if yy in method_is_top_level_callee:
-          top._dag.top_level_callee_constraints.add( (xx, yy) )
+      # Either side may reach the top level through M(a) == M(b): pair every
+      # member of xx's equivalence class with every member of yy's, so that
+      # two top level callees are ordered against each other as well
+      for zx in ( equiv[xx] if xx in equiv else (xx,) ):
+        for zy in ( equiv[yy] if yy in equiv else (yy,) ):
+          if ( zx is xx or zx in method_is_top_level_callee ) and \
+             ( zy is yy or zy in method_is_top_level_callee ) and \
+             ( zx in method_is_top_level_callee or zy in method_is_top_level_callee ):
+            top._dag.top_level_callee_constraints.add( (zx, zy) )
 
     verbose = False
 
